@@ -507,6 +507,13 @@ def check_static_structs(prop, tier, seed):
         rcases.append({"id": "role-%05d" % i, "family": "struct-roles-random", "S": S,
                        "opts": F.opts(bmh=not has_rt, enc=True, mv=mv, serde=(i % 5 == 0))})
     drive_and_judge(rep, prop, rcases, "roles", keep)
+    # every struct role of MC_Structs (reachable from a variable AND entry parameter / result, builtin members before located ones, ...)
+    rs = structs_mc(rep, quick, early=EARLY, check_work=False)
+    sc = []
+    for i, e in enumerate(rs.cases[::(3 if quick else 1)]):
+        mv = ("rust", "glam", "nalgebra")[i % 3]
+        sc.append({"id": "srole-%05d" % i, "family": "struct-roles-exported", "S": e["S"], "opts": F.opts(bmh=True, bmv=(i % 2 == 0), mv=mv)})
+    drive_and_judge(rep, prop, sc, "sroles", keep)
     rep.exhaustive = True
     return rep
 
